@@ -614,7 +614,7 @@ impl Serialize for Value {
         S: Serializer,
     {
         use serde::ser::SerializeMap;
-        let mut map = serializer.serialize_map(Some(2))?;
+        let mut map = serializer.serialize_map(None)?;
         match self {
             Value::Int32(v) => {
                 map.serialize_entry("type", "Int32")?;
@@ -627,6 +627,9 @@ impl Serialize for Value {
             Value::Float64(v) => {
                 map.serialize_entry("type", "Float64")?;
                 map.serialize_entry("value", v)?;
+                // JSON has no NaN/Infinity (serde_json writes null) and parsing decimal text
+                // back may be off by one ulp: keep the exact bits next to the readable value
+                map.serialize_entry("bits", &v.to_bits())?;
             }
             Value::String(s) => {
                 map.serialize_entry("type", "String")?;
@@ -643,6 +646,8 @@ impl Serialize for Value {
             Value::Vector(v) => {
                 map.serialize_entry("type", "Vector")?;
                 map.serialize_entry("value", v.as_ref())?;
+                let bits: Vec<u32> = v.iter().map(|x| x.to_bits()).collect();
+                map.serialize_entry("bits", &bits)?;
             }
             Value::VectorInt8(v) => {
                 map.serialize_entry("type", "VectorInt8")?;
@@ -680,6 +685,8 @@ impl<'de> Deserialize<'de> for Value {
             {
                 let mut type_str: Option<String> = None;
                 let mut raw_value: Option<serde_json::Value> = None;
+                // exact bit pattern of non-finite floats (written next to a null `value`)
+                let mut bits: Option<serde_json::Value> = None;
 
                 while let Some(key) = map.next_key::<String>()? {
                     match key.as_str() {
@@ -688,6 +695,9 @@ impl<'de> Deserialize<'de> for Value {
                         }
                         "value" => {
                             raw_value = Some(map.next_value()?);
+                        }
+                        "bits" => {
+                            bits = Some(map.next_value()?);
                         }
                         _ => {
                             let _: serde_json::Value = map.next_value()?;
@@ -711,6 +721,11 @@ impl<'de> Deserialize<'de> for Value {
                         Ok(Value::Int64(v))
                     }
                     "Float64" => {
+                        if let Some(b) = bits {
+                            let b: u64 =
+                                serde_json::from_value(b).map_err(serde::de::Error::custom)?;
+                            return Ok(Value::Float64(f64::from_bits(b)));
+                        }
                         let v: f64 =
                             serde_json::from_value(raw_value).map_err(serde::de::Error::custom)?;
                         Ok(Value::Float64(v))
@@ -727,6 +742,13 @@ impl<'de> Deserialize<'de> for Value {
                     }
                     "Null" => Ok(Value::Null),
                     "Vector" => {
+                        if let Some(b) = bits {
+                            let b: Vec<u32> =
+                                serde_json::from_value(b).map_err(serde::de::Error::custom)?;
+                            return Ok(Value::Vector(Arc::new(
+                                b.into_iter().map(f32::from_bits).collect(),
+                            )));
+                        }
                         let v: Vec<f32> =
                             serde_json::from_value(raw_value).map_err(serde::de::Error::custom)?;
                         Ok(Value::Vector(Arc::new(v)))
